@@ -29,7 +29,7 @@ def check(P, rep):
     if 'approve_messages' in c.entries:
         g = P.graph(CN, 'approve_messages')
         msgs, proof = g.P(1), g.P(2)
-        D = ('keccak', ('xdr', ('tuple', (('variant', 'types::CommandType', 'ApproveMessages', ()), msgs))))
+        D = ('keccak', ('xdr', ('tuple', (('variant', 'CommandType', 'ApproveMessages', ()), msgs))))
         pf = ProofFacts(g, proof, D)
         effs = state_effects(g)
         rep.floor('approve_messages effects', len(effs), 2)
